@@ -200,6 +200,9 @@ def run(ctx):
         avoided["mixed_dtype"] = len(mixedt)
         mixedt = []
     cases += mixedt
+    # calls WITHOUT a start vector (default random probe, key given or not): compared on the independently reproduced probe
+    nostart = [L.gen_nostart(ctx.rng, present, nmax=min(nmax, 10)) for _ in range(ctx.budget(40, 200))]
+    cases += nostart
     big = []
     for _ in range(ctx.budget(10, 50)):
         c = L.gen_case(ctx.rng, present, nmax=12, force=dict(n=int(ctx.rng.choice([30, 64, 100, 200])), kind="dense"))
@@ -276,6 +279,15 @@ def run(ctx):
         bad = L.oracle_eigs(c, o)
         if bad:
             mism.append(dict(oracle_fail=True, case=c, got={k: o.get(k) for k in ("ok", "err", "shapes", "eigs", "H")}, failed_clauses=bad))
+    # badly scaled (graded) operators D^-1 M D, dynamic range 1e3..1e8, through arnoldi_eigs
+    graded = [L.gen_graded(ctx.rng) for _ in range(ctx.budget(40, 200))]
+    if spoil:
+        graded = []
+    for c in graded:
+        o = L.run_impl(c)
+        bad = L.oracle_graded(c, o)
+        if bad:
+            mism.append(dict(oracle_fail=True, case=c, got={k: o.get(k) for k in ("ok", "err", "shapes", "eigs", "H")}, failed_clauses=bad))
     # larger ill-conditioned Krylov sequences (n 40..100, non-normal, spectrum decaying over 8..12 orders, 30..60 steps): oracle only
     ill = [L.gen_illcond(ctx.rng) for _ in range(ctx.budget(5, 30))]
     for c in gone_region + big + ill:
@@ -296,7 +308,7 @@ def run(ctx):
         rel = "m<n" if c["max_iters"] < c["n"] else ("m=n" if c["max_iters"] == c["n"] else "m>n")
         mh[rel] = mh.get(rel, 0) + 1
     return dict(
-        evaluations=len(cases) + len(gone_region) + len(big) + len(mixed) + len(exact) + len(weak) + len(ill), distinct_nontrivial=distinct,
+        evaluations=len(cases) + len(gone_region) + len(big) + len(mixed) + len(exact) + len(weak) + len(ill) + len(graded), distinct_nontrivial=distinct,
         rule="square operators n<=%d (dense/Sum/Product/ScalarMul/Kronecker/Diagonal/matmat-defined; real and complex; generic, symmetric, unitary, skew, "
              "block-triangular non-normal with an invariant subspace), starts random/in an invariant subspace (breakdown)/scaled, 1-D and batched, max_iters 1..n+3 "
              "(m<n, m=n, m>n), ten tolerances; non-trivial = n>=3 and max_iters>=2; distinct by hash of (operator data, start, max_iters, tol)" % nmax,
@@ -309,7 +321,7 @@ def run(ctx):
                    breakdown_cases=sum(1 for c in cases if min(c["grades"]) < min(c["max_iters"], c["n"])),
                    complex_cases=sum(1 for c in cases if c["cplx"]), batched_cases=sum(1 for c in cases if c["batch"]),
                    eigs_cases=sum(1 for c in cases if c["entry"] == "arnoldi_eigs"),
-                   avoided_regions=avoided, weak_coupling_eigs_cases=len(weak), illconditioned_large_cases=len(ill), exact_stream_cases=len(exact), exact_stream_tol0=sum(1 for c in exact if c['tol'] == 0.0), mixed_batches_used=len(mixed), batch_elements_vs_single_start=elem_compared, defect_free_region_cases=len(gone_region), large_oracle_only=len(big),
+                   avoided_regions=avoided, weak_coupling_eigs_cases=len(weak), graded_eigs_cases=len(graded), no_start_vector_cases=len(nostart), illconditioned_large_cases=len(ill), exact_stream_cases=len(exact), exact_stream_tol0=sum(1 for c in exact if c['tol'] == 0.0), mixed_batches_used=len(mixed), batch_elements_vs_single_start=elem_compared, defect_free_region_cases=len(gone_region), large_oracle_only=len(big),
                    impl_exceptions=sum(1 for o in obs if not o.get("ok"))))
 
 
